@@ -383,6 +383,8 @@ class Model(object):
                 continue
             m = self.macros.get(t.s)
             if m is None:
+                if t.s in self.ever:
+                    self.f.add("use-after-undef")
                 out.append(t)
                 continue
             if t.s in t.hs:
@@ -527,6 +529,8 @@ class Model(object):
             if t.k in ("str", "chr"):
                 sp = sp.replace("\\", "\\\\").replace('"', '\\"')
                 self.f.add("stringify-lit")
+                if ("'" in t.s[1:-1]) if t.k == "str" else ('"' in t.s):
+                    self.f.add("stringify-lit-has-other-quote")
             elif t.k == "id" and t.s in self.macros:
                 self.f.add("stringify-macro-name")
             s += sp
@@ -550,6 +554,24 @@ class Model(object):
             res = self.subst_seq(m, nodes, args, cache, name)
             if not res:
                 self.f.add("fn-empty-result")
+            # arguments that were never macro-expanded (parameter unused, or only an operand of # / ##): would their
+            # expansion produce a top-level comma?  (an implementation that expands every argument eagerly and
+            # re-scans text is sensitive to that; the features of this dry run are discarded)
+            for idx in range(len(args)):
+                if idx not in cache and args[idx]:
+                    keep = set(self.f)
+                    self.f.discard("arg-expansion-makes-comma")
+                    try:
+                        self.expanded_arg(m, args, idx, cache)
+                        made = "arg-expansion-makes-comma" in self.f
+                        skipped = "va-opt-skipped" in self.f - keep
+                    except (Invalid, Ambiguous):
+                        made = skipped = False
+                    self.f = keep
+                    if made:
+                        self.f.add("arg-expansion-makes-comma")
+                    if skipped:
+                        self.f.add("unused-arg-va-opt-skipped")
         self.ntok += len(res) + 1
         if self.ntok > self.max_tokens:
             raise Ambiguous("expansion too large")
@@ -742,6 +764,7 @@ class MacroInfo(object):
     def __init__(self, name, params, variadic):
         self.name, self.params, self.variadic = name, params, variadic
         self.roles = {}        # param -> set of 'L','R' (used as paste operand)
+        self.tail = None       # spelling of the last token of its replacement list
         self.pure_ident = False
 
 
@@ -838,6 +861,14 @@ class Gen(object):
         x = r.random()
         params = scope.get("params") or []
         if params and x < 0.30:
+            if self.fl.get("macro_as_arg") and r.random() < 0.3 and depth < 2:
+                # the parameter is applied: a macro name passed as argument is invoked after rescanning
+                out = [r.choice(params), "("]
+                for i in range(r.choice([0, 1, 1, 1, 2, 2, 3])):
+                    if i:
+                        out.append(",")
+                    out += self.expr(scope, depth + 2, 1)
+                return out + [")"]
             return [r.choice(params)]
         if scope.get("variadic") and x < 0.38:
             return ["__VA_ARGS__"]
@@ -1031,6 +1062,7 @@ class Gen(object):
             ps = list(info.params) + (["..."] if info.variadic else [])
             head += "(" + self.r.choice([", ", ",", " , "]).join(ps) + ")"
         btxt = self.render(body, tight=0.3)
+        info.tail = body[-1] if body else None
         return head, btxt
 
     # --- the program ------------------------------------------------------------
@@ -1087,7 +1119,7 @@ class Gen(object):
             scope = dict(params=[], variadic=False, index=None, live=set(live))
             n = r.choice([1, 1, 2, 2, 3])
             toks = self.expr(scope, 0, n)
-            if fl.get("macro_as_arg") and r.random() < 0.25:
+            if fl.get("macro_as_arg") and r.random() < 0.4:
                 toks += self.span_call(scope)
             ml = fl.get("multiline") and r.random() < 0.6
             pre = r.choice([[], [], ["int", "v"], ["return"], ["v", "="]])
@@ -1157,14 +1189,37 @@ class Gen(object):
         return {"units": units}
 
     def span_call(self, scope):
-        """`;`-free tail:  NAME-producing macro followed by an argument list written at the use site"""
+        """an invocation whose name comes out of a macro expansion and whose argument list is written after it:
+        ALIAS (args)   where ALIAS's replacement list ends in a function-like macro name, or
+        WRAP(.., F, ..) (args)   with the name handed through an argument"""
         r = self.r
-        fns = [m for m, _ in self.candidates(scope) if m.params is not None and not m.variadic]
+        cands = [m for m, _ in self.candidates(scope)]
+        byname = {m.name: m for m in self.macros}
+        fns = [m for m in cands if m.params is not None]
         if not fns:
             return []
-        m = r.choice(fns)
-        call = self.call(m, scope, 1)
-        return [r.choice(BIN)] + [m.name] + call[1:] if r.random() < 0.5 else [r.choice(BIN)] + call
+        alias = [m for m in cands if m.tail in byname and byname[m.tail].params is not None]
+        if alias and r.random() < 0.6:
+            m = r.choice(alias)
+            target = byname[m.tail]
+            head = [m.name] if m.params is None else self.call(m, scope, 2)
+        else:
+            target = r.choice(fns)
+            wraps = [m for m in fns if m.params]
+            if not wraps:
+                return []
+            w = r.choice(wraps)
+            head = self.call(w, scope, 2)
+            # put the target's name in place of one argument (the first top-level argument slot)
+            head = [w.name, "(", target.name] + ([","] + ["a"] * 1 if False else [])
+            rest = []
+            for i in range(1, len(w.params)):
+                rest += [",", r.choice(IDENTS)]
+            if w.variadic and r.random() < 0.5:
+                rest += [",", r.choice(IDENTS)]
+            head = head + rest + [")"]
+        args = self.call(target, scope, 2)[1:]
+        return [r.choice(BIN)] + head + args
 
 
 PROB = {"objlike": 0.6, "fnlike": 0.6, "self_ref": 0.15, "mutual_ref": 0.15, "lit_names": 0.2, "cmdline": 0.25,
